@@ -38,8 +38,8 @@ func (u *unit) constInt(n int64, t types.Type) Val {
 func (u *unit) resize(x string, from, to types.Type, spec bool) string {
 	fw, tw := width(from), width(to)
 	if u.m.intMode {
-		if spec {
-			return x
+		if spec && tw >= fw {
+			return x // spec integers are mathematical; only explicit narrowing truncates
 		}
 		fs, ts := isSigned(from), isSigned(to)
 		// value preserved when target range contains source range
@@ -348,9 +348,7 @@ func (u *unit) intArith(op token.Token, a, b string, sg bool, w int64, bt types.
 		p := pow2(k.Int64())
 		if op == token.SHL {
 			r := fmt.Sprintf("(* %s %s)", a, p)
-			if spec {
-				return r
-			}
+			// shifts keep their machine meaning in specs too (bits shifted out are lost)
 			return u.wrapMod(r, sg, w)
 		}
 		return fmt.Sprintf("(div %s %s)", a, p) // floor division = arithmetic shift
